@@ -72,7 +72,7 @@ var lcReasons = map[string][]string{
 	"drop":           {"transport close", "transport error"},
 	"overlap":        {"transport error"},
 	"wrongHeartbeat": {"transport error"},
-	"garbage":        {"parse error", "transport error"},
+	"garbage":        {"parse error"},
 	"silence":        {"ping timeout"},
 	"appClose":       {"forced close"},
 	"appCloseNow":    {"forced close"},
@@ -402,8 +402,7 @@ func (lw *lcWorld) causeFn(s *lcSess, cause string) func() {
 	case "garbage":
 		switch {
 		case s.pc != nil:
-			// an undecodable packet inside a polling payload is dropped by the decoder, not a close cause
-			return nil
+			return func() { s.pc.StartPostRaw([]byte(map[int]string{4: "9zz", 3: "3:9zz2:4x"}[s.rev]), "text/plain;charset=UTF-8", nil) }
 		case s.wc != nil:
 			return func() { s.wc.SendMessage(Frame{Data: []byte("9zz")}, nil) }
 		default:
@@ -847,7 +846,7 @@ func runLC(steps []lcStep) (*lcWorld, bubbleResult) {
 					s.addCause(st.Cause2)
 				}
 				lw.stats["two-causes-same-instant"] = true
-				posts := map[string]bool{"closePacket": true, "wrongHeartbeat": true}
+				posts := map[string]bool{"closePacket": true, "wrongHeartbeat": true, "garbage": true}
 				if s.pc != nil && posts[st.Cause] && posts[st.Cause2] {
 					// two simultaneous data requests of one polling client are themselves an overlap
 					s.addCause("overlap")
